@@ -81,6 +81,9 @@ def cases(tier, rng):
                            ([("kcp", 4, 500000, 1), ("stdio", 4, 1000000, 1), ("tcp-starttls", 4, 1000000, 1), ("wss", 3, 1000000, 2), ("dns", 2, 20000, 1)] if thorough else [])):
         line = "c01par %s %d %d %d" % (c, k, n, procs)
         cs.append({"line": line, "key": line, "model": False, "tags": {"carrier": c, "n": n, "dir": "parallel"}})
+    for c, k, n, procs in [("tcp", 4, 600000, 1), ("tcp", 4, 600000, 2)]:      # ... and in the copy loops' logging variant
+        line = "c01par %s %d %d %d debug" % (c, k, n, procs)
+        cs.append({"line": line, "key": line, "model": False, "tags": {"carrier": c, "n": n, "dir": "parallel", "variant": "debug"}})
     # run on the implementation only: a physical session older than the handshake's time limit (1 s here) when the connection is
     # opened, and the copy loops' logging variant (SOCKETACE_PIPE_DEBUG=1): multi-block transfers with further data after the first block
     cs += wire_cases(tier, rng)
